@@ -55,7 +55,7 @@ def run_layer(ctx, cov):
             raise Broken("Hier emit produced only %d behaviours" % len(behs))
         if quick:
             rnd.shuffle(behs)
-            behs = behs[:160]
+            behs = behs[:110]
         f = ctx.work / ("hier-beh-%d.ndjson" % base)
         f.write_text("\n".join(behs) + "\n")
         out = ctx.work / ("hier-res-%d.json" % base)
@@ -78,7 +78,7 @@ def run_layer(ctx, cov):
         if j.get("samples"):
             samples.append({"regime": "genesis-exempt" if exempt else "strict", "behaviour": [
                 {k: s[k] for k in ("b", "order", "zp", "rp", "pp", "verdict")} for s in j["samples"][0]["behaviour"]]})
-    if refused < 20 or appended < 100:
+    if refused < 15 or appended < 80:
         raise Broken("hier layer vacuous: %d refusals, %d appended" % (refused, appended))
     cov.update(hier_model_states=states, hier_behaviours_replayed=total, hier_steps_compared=steps,
                hier_blocks_appended=appended, hier_twisted_blocks_refused=refused, hier_samples=samples,
